@@ -346,7 +346,7 @@ func (c *SeqCheck) Run(e *Env) (*Outcome, *Evidence, error) {
 	if !c.NoBig {
 		nBig, depth := 5, 70
 		if thorough {
-			nBig, depth = 60, 90
+			nBig, depth = 24, 90
 		}
 		o, err := e.bigWalks("big", nBig, depth, e.Seed)
 		if err != nil {
